@@ -11,6 +11,7 @@
 //! (streams `prop`, `cwr`).  Runtime facts — tokio tasks alive and socket descriptors back at baseline,
 //! latency of calls — are *measured* in dedicated sequential runs and reported as such.
 use super::c10::pair::*;
+use super::c10::pair::{Pair, Side};
 use crate::{Args, Rng, Run};
 use bytes::Bytes;
 use rustrtc::{DataChannelEvent, DisconnectReason, IceTransportState, PeerConnection, PeerConnectionState, SignalingState};
@@ -23,7 +24,7 @@ use std::time::{Duration, Instant};
 #[derive(Clone, Copy, Debug, PartialEq, Eq, Hash, PartialOrd, Ord)]
 pub enum Phase { Created, OfferMade, RemoteOfferSet, Checking, IceConnected, DtlsHandshaking, Connected, ChannelsOpen, MediaFlowing, Renegotiating }
 #[derive(Clone, Copy, Debug, PartialEq, Eq, Hash, PartialOrd, Ord)]
-pub enum Event { Close, CloseTwice, Drop, PeerCloseNotify, PeerClose, PeerAbort, PeerShutdown, PeerShutdownAck, IceStop, PeerVanish, BlockedSenderClose }
+pub enum Event { Close, CloseTwice, Drop, PeerCloseNotify, PeerClose, PeerAbort, PeerShutdown, PeerShutdownAck, IceStop, PeerVanish, BlockedSenderClose, BlockedSenderVanish, CloseChannelTwice, CloseChannelThenClose }
 
 const PHASES: &[(Phase, &str)] = &[(Phase::Created, "created"), (Phase::OfferMade, "offerMade"), (Phase::RemoteOfferSet, "remoteOfferSet"),
     (Phase::Checking, "checking"), (Phase::IceConnected, "iceConnected"), (Phase::DtlsHandshaking, "dtlsHandshaking"),
@@ -31,28 +32,33 @@ const PHASES: &[(Phase, &str)] = &[(Phase::Created, "created"), (Phase::OfferMad
 const EVENTS: &[(Event, &str)] = &[(Event::Close, "close"), (Event::CloseTwice, "closeTwice"), (Event::Drop, "drop"),
     (Event::PeerCloseNotify, "peerCloseNotify"), (Event::PeerClose, "peerClose"), (Event::PeerAbort, "peerAbort"),
     (Event::PeerShutdown, "peerShutdown"), (Event::PeerShutdownAck, "peerShutdownAck"), (Event::IceStop, "iceStop"),
-    (Event::PeerVanish, "peerVanish"), (Event::BlockedSenderClose, "blockedSenderClose")];
+    (Event::PeerVanish, "peerVanish"), (Event::BlockedSenderClose, "blockedSenderClose"),
+    (Event::BlockedSenderVanish, "blockedSenderVanish"), (Event::CloseChannelTwice, "closeChannelTwice"), (Event::CloseChannelThenClose, "closeChannelThenClose")];
 fn phase_name(p: Phase) -> &'static str { PHASES.iter().find(|x| x.0 == p).unwrap().1 }
 fn event_name(e: Event) -> &'static str { EVENTS.iter().find(|x| x.0 == e).unwrap().1 }
 
 #[derive(Clone, Debug, PartialEq, Eq, Hash, PartialOrd, Ord)]
-pub struct Scen { pub mode: Mode, pub phase: Phase, pub events: Vec<Event>, pub audio_only: bool }
+pub struct Scen { pub mode: Mode, pub phase: Phase, pub events: Vec<Event>, pub audio_only: bool, pub variant: u8 }
+/// `variant`: 0 = full ICE, one media section; 1 = ICE-TCP; 2 = UDP mux; 3 = two non-BUNDLE sections (LegacySip)
+const VARIANTS: [&str; 4] = ["", "-tcp", "-udpmux", "-2sec"];
 impl Scen {
     pub fn text(&self) -> String {
-        format!("{}{}:{}:{}", match self.mode { Mode::WebRtc => "webrtc", Mode::Srtp => "srtp", Mode::Rtp => "rtp" }, if self.audio_only { "-audio" } else { "" },
+        format!("{}{}{}:{}:{}", match self.mode { Mode::WebRtc => "webrtc", Mode::Srtp => "srtp", Mode::Rtp => "rtp" }, if self.audio_only { "-audio" } else { "" }, VARIANTS[self.variant as usize],
             phase_name(self.phase), self.events.iter().map(|e| event_name(*e)).collect::<Vec<_>>().join("+"))
     }
     pub fn parse(s: &str) -> Option<Scen> {
         let f: Vec<&str> = s.split(':').collect();
         if f.len() != 3 { return None; }
-        let audio_only = f[0].ends_with("-audio");
-        Some(Scen { audio_only, mode: match f[0].trim_end_matches("-audio") { "webrtc" => Mode::WebRtc, "srtp" => Mode::Srtp, "rtp" => Mode::Rtp, _ => return None },
+        let mut m0 = f[0].to_string(); let mut variant = 0u8;
+        for (i, v) in VARIANTS.iter().enumerate().skip(1) { if m0.ends_with(v) { variant = i as u8; m0.truncate(m0.len() - v.len()); } }
+        let audio_only = m0.ends_with("-audio");
+        Some(Scen { audio_only, variant, mode: match m0.trim_end_matches("-audio") { "webrtc" => Mode::WebRtc, "srtp" => Mode::Srtp, "rtp" => Mode::Rtp, _ => return None },
             phase: PHASES.iter().find(|x| x.1 == f[1])?.0,
             events: f[2].split('+').map(|e| EVENTS.iter().find(|x| x.1 == e).map(|x| x.0)).collect::<Option<Vec<_>>>()? })
     }
     fn cfg(&self) -> Cfg {
-        Cfg { mode: self.mode, mix: if self.mode == Mode::WebRtc && !self.audio_only { Mix::DataAudio } else { Mix::Audio }, bundle: 0, mux_require: true,
-              ice: IceOpt::Full, latching: false, legacy: false, p_offers: true }
+        Cfg { mode: self.mode, mix: if self.variant == 3 { Mix::AudioVideo } else if self.mode == Mode::WebRtc && !self.audio_only { Mix::DataAudio } else { Mix::Audio }, bundle: 0, mux_require: true,
+              ice: match self.variant { 1 => IceOpt::Tcp, 2 => IceOpt::UdpMux, _ => IceOpt::Full }, latching: false, legacy: self.variant == 3, p_offers: true }
     }
     /// which events make sense where (written rule): peer-side DTLS/SCTP events need an established
     /// WebRTC connection; ICE stop needs negotiation to have started; watcher-injected phases take only
@@ -65,10 +71,10 @@ impl Scen {
             match e {
                 Event::PeerCloseNotify | Event::PeerAbort | Event::PeerShutdown | Event::PeerShutdownAck => {
                     if self.mode != Mode::WebRtc || !matches!(self.phase, Phase::ChannelsOpen | Phase::MediaFlowing | Phase::Renegotiating) { return false; } }
-                Event::BlockedSenderClose => { if self.mode != Mode::WebRtc || self.phase != Phase::ChannelsOpen || self.events.len() > 1 { return false; } }
+                Event::BlockedSenderClose | Event::BlockedSenderVanish | Event::CloseChannelTwice | Event::CloseChannelThenClose => { if self.mode != Mode::WebRtc || self.audio_only || self.phase != Phase::ChannelsOpen || self.events.len() > 1 { return false; } }
                 // direct modes have no liveness mechanism (ICE consent checks run in WebRTC mode only): a silent peer is by design not an event there
                 Event::PeerVanish | Event::PeerClose => { if !connected || self.events.len() > 1 || self.mode != Mode::WebRtc { return false; } }
-                Event::Drop => { if matches!(self.phase, Phase::Checking | Phase::IceConnected | Phase::DtlsHandshaking) || self.events.len() > 1 { return false; } }
+                Event::Drop => { if self.events.len() > 1 { return false; } }
                 Event::CloseTwice => { if self.events.len() > 1 || matches!(self.phase, Phase::IceConnected | Phase::DtlsHandshaking) { return false; } }
                 Event::IceStop => { if matches!(self.phase, Phase::Created) { return false; } }
                 Event::Close => {}
@@ -106,9 +112,10 @@ fn dtls_text(pc: &PeerConnection) -> &'static str {
 
 /// state of X just before the injection (selects the model's start state)
 fn snapshot(x: &PeerConnection) -> String {
-    format!("{},{},{},{},{},{},{}", peer_text(*x.subscribe_peer_state().borrow()), sig_text(x.signaling_state()),
+    format!("{},{},{},{},{},{},{},{}", peer_text(*x.subscribe_peer_state().borrow()), sig_text(x.signaling_state()),
         ice_text(x.ice_transport().state()), dtls_text(x), x.verif_lc_sctp_transport().is_some() as u8,
-        x.verif_lc_dtls_role().is_some() as u8, reason_text(&x.disconnect_reason()))
+        x.verif_lc_dtls_role().is_some() as u8, reason_text(&x.disconnect_reason()),
+        (x.local_description().is_some() && x.remote_description().is_some()) as u8)
 }
 
 pub fn sctp_packet(chunk_type: u8) -> Bytes {
@@ -134,7 +141,7 @@ fn watch_channel(dc: &Arc<DataChannel>) -> ChanWatch {
 pub struct Outcome {
     pub pre: String, pub progress: bool, pub nch: usize, pub has_app: bool,
     pub peer: String, pub sig: String, pub reason: String, pub chan_events: Vec<usize>, pub chan_open_before: Vec<bool>,
-    pub recv_ended: Vec<bool>, pub calls: String, pub notes: Vec<String>, pub blocked_send_ms: Option<u128>, pub err: Option<String>,
+    pub recv_ended: Vec<bool>, pub calls: String, pub parked: usize, pub notes: Vec<String>, pub blocked_send_ms: Option<u128>, pub err: Option<String>,
 }
 
 async fn timed<F: std::future::Future<Output = bool>>(f: F, limit: Duration) -> char {
@@ -158,7 +165,13 @@ async fn inject(ev: Event, x: &PeerConnection, y: &PeerConnection) -> Result<(),
             d.send(sctp_packet(14)).await.map_err(|e| e.to_string())?; // SHUTDOWN COMPLETE
         }
         Event::PeerShutdownAck => { y.verif_lc_dtls_transport().ok_or("peer has no DTLS transport")?.send(sctp_packet(8)).await.map_err(|e| e.to_string())?; }
-        Event::Drop | Event::BlockedSenderClose => unreachable!(),
+        Event::CloseChannelTwice | Event::CloseChannelThenClose => {
+            let t = x.verif_lc_sctp_transport().ok_or("no SCTP transport")?;
+            let id = x.verif_lc_channel_states().first().map(|c| c.0).ok_or("no channel")?;
+            t.close_data_channel(id).await.map_err(|e| e.to_string())?;
+            if ev == Event::CloseChannelTwice { t.close_data_channel(id).await.map_err(|e| e.to_string())?; } else { x.close(); }
+        }
+        Event::Drop | Event::BlockedSenderClose | Event::BlockedSenderVanish => unreachable!(),
     }
     Ok(())
 }
@@ -166,17 +179,21 @@ async fn inject(ev: Event, x: &PeerConnection, y: &PeerConnection) -> Result<(),
 /// `exec_once`, repeated (up to 3 attempts) when the *setup* of the pair failed (busy host): a pair that
 /// cannot be set up is C10's subject, not a C17 observation.
 pub async fn exec(sc: &Scen) -> Outcome {
-    let mut o = exec_once(sc).await;
-    for _ in 0..2 { if o.err.as_deref().is_some_and(|e| e.starts_with("setup:")) { o = exec_once(sc).await; } else { break; } }
+    let mut o = exec_once(sc, None).await.0;
+    for _ in 0..2 { if o.err.as_deref().is_some_and(|e| e.starts_with("setup:")) { o = exec_once(sc, None).await.0; } else { break; } }
     o
 }
 
-async fn exec_once(sc: &Scen) -> Outcome {
+/// `x_runtime`: run every rustrtc task of the subject endpoint on this runtime and, at the end, do NOT close
+/// the endpoints but hand them back (resource measurement while the application still holds its handles).
+async fn exec_once(sc: &Scen, x_runtime: Option<tokio::runtime::Handle>) -> (Outcome, Option<Pair>) {
     let mut out = Outcome::default();
     let cfg = sc.cfg();
-    let vanish = sc.events.contains(&Event::PeerVanish) || sc.events.contains(&Event::PeerClose) || sc.events.contains(&Event::BlockedSenderClose);
+    let vanish = sc.events.contains(&Event::PeerVanish) || sc.events.contains(&Event::PeerClose) || sc.events.contains(&Event::BlockedSenderClose) || sc.events.contains(&Event::BlockedSenderVanish);
+    let keep = x_runtime.is_some();
     let knobs = Knobs { ice_disconnect_threshold: Some(Duration::from_millis(1200)), ice_disconnect_grace: Some(Duration::from_millis(300)),
-        ice_connection_timeout: Some(Duration::from_secs(30)), sctp_max_buffered: if sc.events.contains(&Event::BlockedSenderClose) { Some(16 * 1024) } else { None } };
+        ice_connection_timeout: Some(Duration::from_secs(30)), sctp_max_buffered: if sc.events.contains(&Event::BlockedSenderClose) || sc.events.contains(&Event::BlockedSenderVanish) { Some(16 * 1024) } else { None },
+        p_runtime: x_runtime.clone() };
     let mut p = Pair::create(cfg, &knobs);
     out.has_app = cfg.mix.has_data();
     // subject: the offerer, except for the remote-offer phase
@@ -201,7 +218,7 @@ async fn exec_once(sc: &Scen) -> Outcome {
         }
         Ok(())
     }.await;
-    if let Err(e) = r { out.err = Some(format!("setup: {e}")); p.off.pc.close(); p.ans.pc.close(); return out; }
+    if let Err(e) = r { out.err = Some(format!("setup: {e}")); p.off.pc.close(); p.ans.pc.close(); return (out, None); }
     let media_task = if sc.phase == Phase::MediaFlowing {
         let src = p.off.media[0].source.clone();
         Some(tokio::spawn(async move { for n in 0..2000u32 {
@@ -227,6 +244,23 @@ async fn exec_once(sc: &Scen) -> Outcome {
     let mut dropped = false;
     let inj: Result<(), String> = async {
         match sc.phase {
+            Phase::Checking | Phase::IceConnected | Phase::DtlsHandshaking if sc.events == [Event::Drop] => {
+                // drop racing connection establishment: deliver the answer, spin until the phase is reached, drop
+                p.deliver_answer().await.ok();
+                let t0 = Instant::now();
+                loop {
+                    let hit = match sc.phase {
+                        Phase::Checking => true,
+                        Phase::IceConnected => matches!(x.ice_transport().state(), IceTransportState::Connected | IceTransportState::Completed),
+                        _ => x.verif_lc_dtls_transport().is_some(),
+                    };
+                    if hit { break; }
+                    if t0.elapsed() > Duration::from_secs(5) { out.notes.push("phase-not-reached".into()); break; }
+                    tokio::task::yield_now().await;
+                }
+                out.pre = snapshot(&x);
+                dropped = true;
+            }
             Phase::Checking | Phase::IceConnected | Phase::DtlsHandshaking => {
                 // the answer is delivered now; ICE / DTLS progress races the event
                 let xw = x.clone(); let ph = sc.phase;
@@ -240,7 +274,8 @@ async fn exec_once(sc: &Scen) -> Outcome {
                             Phase::IceConnected => matches!(xw.ice_transport().state(), IceTransportState::Connected | IceTransportState::Completed),
                             _ => xw.verif_lc_dtls_transport().is_some(),
                         };
-                        if hit || t0.elapsed() > Duration::from_secs(5) { break; }
+                        if hit { break; }
+                        if t0.elapsed() > Duration::from_secs(5) { break; }
                         tokio::task::yield_now().await;
                     }
                     let pre = snapshot(&xw);
@@ -254,24 +289,41 @@ async fn exec_once(sc: &Scen) -> Outcome {
                 out.pre = snapshot(&x);
                 if sc.events == [Event::Drop] {
                     dropped = true;
-                } else if sc.events == [Event::BlockedSenderClose] {
-                    // the peer vanishes, a sender fills the small send buffer and blocks, then close()
+                } else if sc.events == [Event::BlockedSenderClose] || sc.events == [Event::BlockedSenderVanish] {
+                    // the peer goes silent; two senders on DIFFERENT channels fill the small send buffer and park
+                    // in SCTP flow control (same-channel sends would serialise on the channel's send lock); the
+                    // channel's `recv()` is pending too. Then close() — or nothing (the ICE-disconnect grace
+                    // expiry must release them).
                     y.ice_transport().stop();
-                    let id = chans[0].id; let x2 = x.clone();
-                    let done = Arc::new(AtomicBool::new(false)); let d2 = done.clone();
-                    let sender = tokio::spawn(async move { let big = vec![7u8; 60_000]; for _ in 0..50 { if x2.send_data(id, &big).await.is_err() { break; } } d2.store(true, Ordering::SeqCst); });
-                    tokio::time::sleep(Duration::from_millis(600)).await;
-                    if done.load(Ordering::SeqCst) { out.notes.push("sender-did-not-block".into()); }
+                    let second = x.create_data_channel("second", Some(rustrtc::transports::sctp::DataChannelConfig { negotiated: Some(40), ..Default::default() })).map_err(|e| e.to_string())?;
+                    let ids = [chans[0].id, second.id];
+                    let done = Arc::new(AtomicUsize::new(0));
+                    let mut senders = vec![];
+                    for id in ids {
+                        let x2 = x.clone(); let d2 = done.clone();
+                        senders.push(tokio::spawn(async move { let big = vec![7u8; 60_000]; for _ in 0..50 { if x2.send_data(id, &big).await.is_err() { break; } } d2.fetch_add(1, Ordering::SeqCst); }));
+                    }
+                    tokio::time::sleep(Duration::from_millis(700)).await;
+                    if done.load(Ordering::SeqCst) != 0 { out.notes.push(format!("senders-not-blocked:{}", done.load(Ordering::SeqCst))); }
                     let t0 = Instant::now();
-                    x.close();
-                    let r = tokio::time::timeout(Duration::from_secs(3), sender).await;
-                    out.blocked_send_ms = Some(if r.is_ok() { t0.elapsed().as_millis() } else { u128::MAX });
+                    let bound = if sc.events == [Event::BlockedSenderClose] { x.close(); Duration::from_secs(3) } else { Duration::from_secs(8) };
+                    let mut worst = 0u128;
+                    for h in senders {
+                        let left = bound.saturating_sub(t0.elapsed());
+                        match tokio::time::timeout(left, h).await { Ok(_) => worst = worst.max(t0.elapsed().as_millis()), Err(_) => { worst = u128::MAX; } }
+                    }
+                    out.parked = 2 - done.load(Ordering::SeqCst).min(2);
+                    out.blocked_send_ms = Some(worst);
+                    drop(second);
                 } else if sc.events.len() == 2 {
                     let (e1, e2) = (sc.events[0], sc.events[1]);
                     let (x1, y1, x2, y2) = (x.clone(), y.clone(), x.clone(), y.clone());
                     let a = tokio::spawn(async move { inject(e1, &x1, &y1).await });
                     let b = tokio::spawn(async move { inject(e2, &x2, &y2).await });
-                    a.await.map_err(|e| e.to_string())??; b.await.map_err(|e| e.to_string())??;
+                    // the two injections race each other too (e.g. the peer's DTLS is already closed when its
+                    // ABORT should go out): an injection that could not be delivered is simply an event that did
+                    // not happen — the model explores subsets as well (a disabled action is a no-op)
+                    for r in [a.await, b.await] { if let Ok(Err(e)) = r { out.notes.push(format!("injection-not-delivered: {e}")); } }
                 } else {
                     inject(sc.events[0], &x, &y).await?;
                 }
@@ -294,10 +346,21 @@ async fn exec_once(sc: &Scen) -> Outcome {
         out.chan_events = watches.iter().map(|w| w.closes.load(Ordering::SeqCst)).collect();
         out.recv_ended = watches.iter().map(|w| w.ended.load(Ordering::SeqCst)).collect();
         out.calls = "-".into();
+        if keep {
+            // hand the still-open peer back (the subject's handles are gone)
+            return (out, Some(Pair { cfg, off: Side { pc: ys.pc.clone(), media: vec![], dc: None }, ans: ys, offer: None, answer: None }));
+        }
         ys.pc.close();
-        return out;
+        return (out, None);
     }
     tokio::time::sleep(Duration::from_millis(if vanish { 4000 } else { 1500 })).await;
+    // confirm before reporting (busy host): if the connection is not terminal yet or a channel reader has not
+    // returned yet, keep polling for up to 4 more seconds — a genuine hang is still there afterwards
+    for _ in 0..40 {
+        let term = matches!(*peer_rx.borrow(), PeerConnectionState::Disconnected | PeerConnectionState::Failed | PeerConnectionState::Closed) && reason_rx.borrow().is_some();
+        if term && watches.iter().all(|w| w.ended.load(Ordering::SeqCst)) { break; }
+        tokio::time::sleep(Duration::from_millis(100)).await;
+    }
     out.peer = peer_text(*peer_rx.borrow()).into(); out.sig = sig_text(*sig_rx.borrow()).into(); out.reason = reason_text(&reason_rx.borrow()).into();
     out.chan_events = watches.iter().map(|w| w.closes.load(Ordering::SeqCst)).collect();
     out.recv_ended = watches.iter().map(|w| w.ended.load(Ordering::SeqCst)).collect();
@@ -310,28 +373,33 @@ async fn exec_once(sc: &Scen) -> Outcome {
     let c_recv: String = if watches.is_empty() { "-".into() } else { watches.iter().map(|w| if w.ended.load(Ordering::SeqCst) { 'o' } else { 'p' }).collect() };
     // is `inner.sctp_transport` still held after the event? (close_with_reason must `take()` it)
     let held = x.verif_lc_sctp_transport().is_some() as u8;
-    out.calls = format!("{c_send}{c_offer}{c_wfc}/{c_recv}/h{held}");
+    out.calls = format!("{c_send}{c_offer}{c_wfc}/{c_recv}/h{held}/b{}", out.parked);
+    if keep { return (out, Some(p)); }
     p.off.pc.close(); p.ans.pc.close();
-    out
+    (out, None)
 }
 
-fn lines(sc: &Scen, o: &Outcome) -> (String, String) {
-    let observed = format!("{},{},{},{},{}", o.peer, o.sig, o.reason,
-        if o.chan_events.is_empty() { "-".to_string() } else { o.chan_events.iter().map(|n| n.to_string()).collect::<Vec<_>>().join(".") }, o.calls);
-    let input = format!("{} {} {} {} {} {} {} | {}", if sc.mode == Mode::WebRtc { "w" } else { "d" }, o.has_app as u8, o.nch, phase_name(sc.phase),
+fn observed_text(o: &Outcome) -> String {
+    format!("{},{},{},{},{}", o.peer, o.sig, o.reason,
+        if o.chan_events.is_empty() { "-".to_string() } else { o.chan_events.iter().map(|n| n.to_string()).collect::<Vec<_>>().join(".") }, o.calls)
+}
+
+/// one correspondence case per distinct snapshot of a scenario: the *set* of outcomes observed over the
+/// repetitions (racy phases are repeated) — the driver answers with the same set iff every member is one of
+/// the model's quiescent outcomes AND the model itself has only terminal outcomes for a terminating event.
+fn lines(sc: &Scen, os: &[&Outcome]) -> (String, String) {
+    let o = os[0];
+    let mut set: Vec<String> = os.iter().map(|o| observed_text(o)).collect();
+    set.sort(); set.dedup();
+    let observed = set.join(";");
+    let input = format!("{} {} {} {} {} {} {} | {}", match sc.mode { Mode::WebRtc => "w", Mode::Srtp => "s", Mode::Rtp => "d" }, o.has_app as u8, o.nch, phase_name(sc.phase),
         o.progress as u8, o.pre, sc.events.iter().map(|e| event_name(*e)).collect::<Vec<_>>().join("+"), observed);
     (input + &format!(" # {}", sc.text()), observed)
 }
 
-/// signature class of a scenario: `<mode>/<phase class>/<events>` with phases collapsed into
-/// unconnected (created, offerMade, remoteOfferSet) / connecting (checking, iceConnected, dtlsHandshaking) /
-/// established (connected, channelsOpen, mediaFlowing, renegotiating)
-pub fn sig_class(sc: &Scen) -> String {
-    let pc = match sc.phase { Phase::Created | Phase::OfferMade | Phase::RemoteOfferSet => "unconnected",
-        Phase::Checking | Phase::IceConnected | Phase::DtlsHandshaking => "connecting", _ => "established" };
-    format!("{}{}/{}/{}", match sc.mode { Mode::WebRtc => "webrtc", Mode::Srtp => "srtp", Mode::Rtp => "rtp" }, if sc.audio_only { "-audio" } else { "" }, pc,
-        sc.events.iter().map(|e| event_name(*e)).collect::<Vec<_>>().join("+"))
-}
+/// signature prefix of a scenario: the **full** scenario (`<mode>[-variant]/<phase>/<events>`), so a known
+/// finding covers exactly one phase × event point and nothing else
+pub fn sig_class(sc: &Scen) -> String { sc.text().replace(':', "/") }
 
 /// the property itself on the observations
 fn oracles(sc: &Scen, o: &Outcome) -> Vec<(String, String)> {
@@ -340,7 +408,7 @@ fn oracles(sc: &Scen, o: &Outcome) -> Vec<(String, String)> {
     if o.err.is_some() { return vec![(format!("run:{cls}:setup-or-injection-failed"), o.err.clone().unwrap())]; }
     let only_shutdown = sc.events == [Event::PeerShutdown];
     let terminal = matches!(o.peer.as_str(), "disconnected" | "failed" | "closed") && o.reason != "-";
-    if !terminal { f.push((format!("term:{cls}:{}-{}", o.peer, if o.reason == "-" { "noreason" } else { o.reason.as_str() }), format!("peer={} reason={} sig={}", o.peer, o.reason, o.sig))); }
+    if !terminal && sc.events != [Event::CloseChannelTwice] { f.push((format!("term:{cls}:{}-{}", o.peer, if o.reason == "-" { "noreason" } else { o.reason.as_str() }), format!("peer={} reason={} sig={}", o.peer, o.reason, o.sig))); }
     let _ = only_shutdown;
     let app_closed = sc.events.iter().any(|e| matches!(e, Event::Close | Event::CloseTwice | Event::BlockedSenderClose));
     for (i, n) in o.chan_events.iter().enumerate() {
@@ -351,19 +419,20 @@ fn oracles(sc: &Scen, o: &Outcome) -> Vec<(String, String)> {
     if o.calls != "-" && terminal {
         let c: Vec<char> = o.calls.chars().collect();
         for (i, name) in ["send_data", "create_offer", "wait_for_connected"].iter().enumerate() {
-            // `wait_for_connected` deliberately keeps waiting in `Disconnected` (lenient terminal state): counted, not an alarm
-            if *name == "wait_for_connected" && o.peer == "disconnected" { continue; }
             if c.get(i) == Some(&'p') { f.push((format!("hang:{cls}:{name}-pending-after-terminal"), o.calls.clone())); }
         }
         if app_closed && c.first() == Some(&'o') { f.push((format!("call:{cls}:send_data-ok-after-close"), o.calls.clone())); }
     }
-    if let Some(ms) = o.blocked_send_ms { if ms > 1000 { f.push((format!("hang:{cls}:blocked-sender-not-woken-by-close"), format!("{ms} ms"))); } }
+    if let Some(ms) = o.blocked_send_ms {
+        let bound = if sc.events == [Event::BlockedSenderVanish] { 7000 } else { 2000 };
+        if ms > bound { f.push((format!("hang:{cls}:blocked-sender-not-woken"), format!("slowest parked send returned after {} ms ({} still parked)", if ms == u128::MAX { "never".to_string() } else { ms.to_string() }, o.parked))); }
+    }
     f
 }
 
 fn scenarios(thorough: bool) -> Vec<Scen> {
     let mut v = vec![];
-    let s = |mode, phase, events: &[Event]| Scen { mode, phase, events: events.to_vec(), audio_only: false };
+    let s = |mode, phase, events: &[Event]| Scen { mode, phase, events: events.to_vec(), audio_only: false, variant: 0 };
     if thorough {
         for mode in [Mode::WebRtc, Mode::Rtp, Mode::Srtp] { for (ph, _) in PHASES { for (e, _) in EVENTS { let sc = s(mode, *ph, &[*e]); if sc.valid() { v.push(sc); } } } }
         let racers = [Event::Close, Event::PeerCloseNotify, Event::PeerAbort, Event::PeerShutdownAck, Event::IceStop, Event::PeerShutdown];
@@ -372,9 +441,9 @@ fn scenarios(thorough: bool) -> Vec<Scen> {
         }
     } else {
         use Event::*; use Phase::*;
-        for (ph, evs) in [(Created, vec![Close, Drop]), (OfferMade, vec![Close]), (RemoteOfferSet, vec![Close]), (Checking, vec![Close, IceStop]),
-            (IceConnected, vec![Close]), (DtlsHandshaking, vec![Close, IceStop]), (Connected, vec![Close, PeerClose]),
-            (ChannelsOpen, vec![Close, CloseTwice, Drop, PeerCloseNotify, PeerClose, PeerAbort, PeerShutdown, PeerShutdownAck, IceStop, PeerVanish, BlockedSenderClose]),
+        for (ph, evs) in [(Created, vec![Close, Drop]), (OfferMade, vec![Close]), (RemoteOfferSet, vec![Close]), (Checking, vec![Close, IceStop, Drop]),
+            (IceConnected, vec![Close, Drop]), (DtlsHandshaking, vec![Close, IceStop, Drop]), (Connected, vec![Close, PeerClose]),
+            (ChannelsOpen, vec![Close, CloseTwice, Drop, PeerCloseNotify, PeerClose, PeerAbort, PeerShutdown, PeerShutdownAck, IceStop, PeerVanish, BlockedSenderClose, BlockedSenderVanish, CloseChannelTwice, CloseChannelThenClose]),
             (MediaFlowing, vec![Close, PeerAbort]), (Renegotiating, vec![Close, PeerCloseNotify])] {
             for e in evs { v.push(s(Mode::WebRtc, ph, &[e])); }
         }
@@ -383,6 +452,7 @@ fn scenarios(thorough: bool) -> Vec<Scen> {
             for e in evs { v.push(s(Mode::Rtp, ph, &[e])); }
         }
         for e in [Close, Drop] { v.push(s(Mode::Srtp, Connected, &[e])); }
+        v.push(s(Mode::Srtp, RemoteOfferSet, &[IceStop])); v.push(s(Mode::Srtp, RemoteOfferSet, &[Close])); v.push(s(Mode::Rtp, Checking, &[Close]));
     }
     v.retain(|s| s.valid());
     v
@@ -392,22 +462,32 @@ fn socket_fds() -> usize {
     std::fs::read_dir("/proc/self/fd").map(|d| d.filter_map(|e| e.ok()).filter(|e| std::fs::read_link(e.path()).map(|l| l.to_string_lossy().starts_with("socket:")).unwrap_or(false)).count()).unwrap_or(0)
 }
 
-/// resources: run scenarios one at a time on a fresh runtime and compare tasks / socket fds with the baseline
-fn leak_run(sc: &Scen) -> (usize, usize, usize, usize) {
+/// what one resource run measured
+pub struct LeakObs { pub tasks_x_after_event: usize, pub fds_handle_held: usize, pub fds_after_drop: usize, pub fds_base: usize, pub tasks_main_end: usize, pub peer: String, pub err: Option<String> }
+
+/// resources, measured **while the application still holds the subject's handles** (audit C3): the subject
+/// endpoint runs all its rustrtc tasks on its own runtime `rx`; after the event + settle we poll (≤ 12 s)
+/// for `rx` to have no live task, then close the peer, count socket descriptors, then drop the subject's
+/// handles and count again: everything `close()` / the drop owes must be gone before the handles go.
+fn leak_run(sc: &Scen) -> LeakObs {
     let rt = tokio::runtime::Builder::new_multi_thread().worker_threads(2).enable_all().build().unwrap();
-    let fd0 = socket_fds();
-    let t0 = rt.metrics().num_alive_tasks();
-    let sc2 = sc.clone();
-    let _ = rt.block_on(async move { tokio::spawn(async move { exec(&sc2).await }).await });
-    let mut t1 = 0; let mut fd1 = 0;
-    // poll up to 12 s (> stun_timeout 5 s, nomination 10 s): release must be bounded, not instantaneous
-    for _ in 0..120 {
-        std::thread::sleep(Duration::from_millis(100));
-        t1 = rt.metrics().num_alive_tasks(); fd1 = socket_fds();
-        if t1 <= t0 && fd1 <= fd0 { break; }
-    }
+    let rx = tokio::runtime::Builder::new_multi_thread().worker_threads(2).enable_all().build().unwrap();
+    let fds_base = socket_fds();
+    let sc2 = sc.clone(); let h = rx.handle().clone();
+    let (o, kept) = rt.block_on(async move { tokio::spawn(async move { exec_once(&sc2, Some(h)).await }).await }).unwrap_or((Outcome::default(), None));
+    let mut tx = 0;
+    for _ in 0..120 { tx = rx.metrics().num_alive_tasks(); if tx == 0 { break; } std::thread::sleep(Duration::from_millis(100)); }
+    // close the peer (Y) only; X's handles stay alive
+    if let Some(p) = &kept { let y = if sc.phase == Phase::RemoteOfferSet { &p.off.pc } else { &p.ans.pc }; y.close(); }
+    let mut fds_held = 0; let mut last = usize::MAX;
+    for _ in 0..40 { std::thread::sleep(Duration::from_millis(100)); fds_held = socket_fds(); if fds_held == last && fds_held <= fds_base { break; } last = fds_held; }
+    drop(kept);
+    let mut fds_drop = 0;
+    for _ in 0..40 { std::thread::sleep(Duration::from_millis(100)); fds_drop = socket_fds(); if fds_drop <= fds_base { break; } }
+    let tm = rt.metrics().num_alive_tasks();
+    rx.shutdown_timeout(Duration::from_millis(100));
     rt.shutdown_timeout(Duration::from_millis(100));
-    (t0, t1, fd0, fd1)
+    LeakObs { tasks_x_after_event: tx, fds_handle_held: fds_held, fds_after_drop: fds_drop, fds_base, tasks_main_end: tm, peer: o.peer.clone(), err: o.err.clone() }
 }
 
 const SCTP_REASONS: &[&str] = &["HEARTBEAT_TIMEOUT", "HEARTBEAT_DEAD", "REMOTE_ABORT", "REMOTE_SHUTDOWN", "DTLS_FAILED", "DTLS_CLOSED",
@@ -416,7 +496,7 @@ const SCTP_REASONS: &[&str] = &["HEARTBEAT_TIMEOUT", "HEARTBEAT_DEAD", "REMOTE_A
 /// reason tables on one connected WebRTC pair: `propagate_sctp_close_reason` for every string (reason
 /// reset between), then `close_with_reason(outer)` once per fresh pair for a few strings.
 async fn reason_tables(run: &mut Run, thorough: bool) {
-    let sc = Scen { mode: Mode::WebRtc, phase: Phase::ChannelsOpen, events: vec![Event::Close], audio_only: false };
+    let sc = Scen { mode: Mode::WebRtc, phase: Phase::ChannelsOpen, events: vec![Event::Close], audio_only: false, variant: 0 };
     let mut p = Pair::create(sc.cfg(), &Knobs::default());
     if p.negotiate().await.is_err() || p.wait_connected(Duration::from_secs(12)).await.is_err() { run.fail("run:reason-tables:setup-failed", "prop", "pair did not connect"); return; }
     let x = p.off.pc.clone();
@@ -470,8 +550,13 @@ pub fn run(args: &Args) {
         let t = case.split_whitespace().last().unwrap_or("");
         let sc = Scen::parse(t).or_else(|| case.split_whitespace().find_map(Scen::parse)).expect("replay: <mode>:<phase>:<event[+event]>");
         let rt = tokio::runtime::Builder::new_multi_thread().worker_threads(4).enable_all().build().unwrap();
+        if case.starts_with("leak") {
+            let l = leak_run(&sc);
+            println!("leak-run {}: tasks_on_subject_runtime_after_event={} fds base={} handle_held_peer_closed={} after_drop={} peer={} err={:?}", sc.text(), l.tasks_x_after_event, l.fds_base, l.fds_handle_held, l.fds_after_drop, l.peer, l.err);
+            return;
+        }
         let o = rt.block_on(exec(&sc));
-        let (i, ou) = lines(&sc, &o);
+        let (i, ou) = lines(&sc, &[&o]);
         println!("op: c17 life 0 {i}\nimpl: {ou}\nnotes: {:?} blocked_send_ms={:?} err={:?} recv_ended={:?} open_before={:?}", o.notes, o.blocked_send_ms, o.err, o.recv_ended, o.chan_open_before);
         for (s, d) in oracles(&sc, &o) { println!("ORACLE-FAIL {s} {d}"); }
         rt.shutdown_timeout(Duration::from_millis(200));
@@ -484,27 +569,45 @@ pub fn run(args: &Args) {
     // deterministic order, seed only rotates the start (parallel execution order is irrelevant to the output)
     let rot = rng.below(scs.len() as u64) as usize; scs.rotate_left(rot);
     let t0 = Instant::now();
+    // racy scenarios (event injected while the connection is being established) are repeated: the outcome
+    // depends on the schedule, one run shows one schedule
+    let reps = |sc: &Scen| -> usize { if matches!(sc.phase, Phase::Checking | Phase::IceConnected | Phase::DtlsHandshaking) || sc.events.len() == 2 { if args.tier_thorough { 6 } else { 4 } } else { 1 } };
     let results: Vec<(Scen, Outcome)> = rt.block_on(async {
         let sem = Arc::new(tokio::sync::Semaphore::new(10));
         let mut hs = vec![];
         for sc in scs.iter().cloned() {
-            let sem = sem.clone();
-            hs.push(tokio::spawn(async move { let _p = sem.acquire_owned().await.unwrap(); let o = exec(&sc).await; (sc, o) }));
+            for _ in 0..reps(&sc) {
+                let sem = sem.clone(); let sc = sc.clone();
+                hs.push(tokio::spawn(async move { let _p = sem.acquire_owned().await.unwrap(); let o = exec(&sc).await; (sc, o) }));
+            }
         }
         let mut out = vec![];
         for h in hs { if let Ok(r) = h.await { out.push(r); } }
         out
     });
     let mut strict = 0u64; let mut lenient = 0u64;
+    // group repetitions by (scenario, snapshot): one correspondence case per group
+    let mut groups: std::collections::BTreeMap<(String, String), Vec<&Outcome>> = Default::default();
+    let mut order: Vec<(String, String)> = vec![];
     for (sc, o) in &results {
-        let (input, out) = lines(sc, o);
+        let k = (sc.text(), o.pre.clone());
+        if !groups.contains_key(&k) { order.push(k.clone()); }
+        groups.entry(k).or_default().push(o);
+    }
+    for k in &order {
+        let sc = Scen::parse(&k.0).unwrap();
+        let os = &groups[k];
+        let (input, out) = lines(&sc, os);
         run.case("life", &input, &out, true);
+        run.count_n("life_runs", os.len() as u64);
+    }
+    for (sc, o) in &results {
         run.count(&format!("phase_{}", phase_name(sc.phase)));
         for e in &sc.events { run.count(&format!("event_{}", event_name(*e))); }
         run.count(&format!("final_peer_{}", o.peer));
+        if o.notes.iter().any(|n| n == "phase-not-reached") { run.count("phase_not_reached"); }
         if matches!(o.peer.as_str(), "failed" | "closed") && o.reason != "-" { strict += 1; }
         if matches!(o.peer.as_str(), "disconnected" | "failed" | "closed") && o.reason != "-" { lenient += 1; }
-        if o.peer == "disconnected" && o.calls.chars().nth(2) == Some('p') { run.count("wfc_pending_in_disconnected_informational"); }
         for (sig, d) in oracles(sc, o) { run.fail(&sig, &format!("life {}", sc.text()), &d); }
     }
     run.notes.insert("scenarios".into(), serde_json::json!(results.len()));
@@ -515,25 +618,36 @@ pub fn run(args: &Args) {
     // resources (measured runtime facts): sequential, fresh runtime each
     let leak_list: Vec<Scen> = {
         use Event::*; use Phase::*;
-        let mut l = vec![(Mode::WebRtc, ChannelsOpen, Close), (Mode::WebRtc, ChannelsOpen, Drop), (Mode::WebRtc, DtlsHandshaking, Close), (Mode::WebRtc, OfferMade, Close),
-             (Mode::WebRtc, ChannelsOpen, PeerAbort), (Mode::WebRtc, ChannelsOpen, IceStop), (Mode::Rtp, Connected, Close), (Mode::Rtp, Connected, Drop)];
-        if args.tier_thorough { l.extend([(Mode::WebRtc, Created, Close), (Mode::WebRtc, Created, Drop), (Mode::WebRtc, Checking, Close), (Mode::WebRtc, ChannelsOpen, PeerCloseNotify),
-             (Mode::WebRtc, ChannelsOpen, CloseTwice), (Mode::Srtp, Connected, Close), (Mode::Srtp, Connected, Drop), (Mode::WebRtc, MediaFlowing, Close), (Mode::WebRtc, Renegotiating, Close)]); }
-        let mut l: Vec<Scen> = l.into_iter().map(|(m, p, e)| Scen { mode: m, phase: p, events: vec![e], audio_only: false }).collect();
-        l.push(Scen { mode: Mode::WebRtc, phase: Phase::DtlsHandshaking, events: vec![Event::Close], audio_only: true });
-        l.push(Scen { mode: Mode::WebRtc, phase: Phase::Connected, events: vec![Event::Close], audio_only: true });
+        let mk = |m, p, e, audio_only, variant| Scen { mode: m, phase: p, events: vec![e], audio_only, variant };
+        let mut l = vec![mk(Mode::WebRtc, ChannelsOpen, Close, false, 0), mk(Mode::WebRtc, ChannelsOpen, Drop, false, 0), mk(Mode::WebRtc, DtlsHandshaking, Close, false, 0),
+            mk(Mode::WebRtc, DtlsHandshaking, Close, true, 0), mk(Mode::WebRtc, Checking, Close, false, 0), mk(Mode::WebRtc, OfferMade, Close, false, 0),
+            mk(Mode::WebRtc, ChannelsOpen, IceStop, false, 0), mk(Mode::Rtp, Connected, Close, false, 0), mk(Mode::Rtp, Connected, Drop, false, 0),
+            // ICE variants and per-section transports (audit C4)
+            mk(Mode::WebRtc, ChannelsOpen, Close, false, 1), mk(Mode::WebRtc, ChannelsOpen, Close, false, 2), mk(Mode::Rtp, Connected, Close, false, 3)];
+        if args.tier_thorough { l.extend([mk(Mode::WebRtc, Created, Close, false, 0), mk(Mode::WebRtc, Created, Drop, false, 0), mk(Mode::WebRtc, DtlsHandshaking, Drop, false, 0),
+            mk(Mode::WebRtc, ChannelsOpen, CloseTwice, false, 0), mk(Mode::Srtp, Connected, Close, false, 0), mk(Mode::Srtp, Connected, Drop, false, 0),
+            mk(Mode::WebRtc, MediaFlowing, Close, false, 0), mk(Mode::WebRtc, Renegotiating, Close, false, 0), mk(Mode::WebRtc, Connected, Close, true, 0),
+            mk(Mode::WebRtc, ChannelsOpen, Drop, false, 2), mk(Mode::Rtp, Connected, Drop, false, 3), mk(Mode::Srtp, Connected, Close, false, 3)]); }
+        // lower-layer failures: measured and reported, not alarmed (the application still has to close())
+        l.push(mk(Mode::WebRtc, ChannelsOpen, PeerAbort, false, 0)); l.push(mk(Mode::WebRtc, ChannelsOpen, PeerCloseNotify, false, 0));
         l
     };
     let mut leaks = vec![];
     for sc in &leak_list {
-        let (t0, t1, f0, f1) = leak_run(sc);
-        leaks.push(serde_json::json!({"scenario": sc.text(), "tasks_before": t0, "tasks_after": t1, "socket_fds_before": f0, "socket_fds_after": f1}));
+        let l = leak_run(sc);
+        let app_ended = sc.events.iter().any(|e| matches!(e, Event::Close | Event::CloseTwice | Event::Drop | Event::IceStop));
+        leaks.push(serde_json::json!({"scenario": sc.text(), "subject_tasks_alive_after_event_handle_held": l.tasks_x_after_event, "socket_fds_base": l.fds_base,
+            "socket_fds_handle_held_peer_closed": l.fds_handle_held, "socket_fds_after_drop": l.fds_after_drop, "peer_state": l.peer, "alarmed": app_ended, "err": l.err}));
         run.count("resource_runs");
-        if t1 > t0 { run.fail(&format!("leak:{}:tasks-alive-after-teardown", sig_class(sc)), &format!("life {}", sc.text()), &format!("tasks {t0} -> {t1} after 12 s")); }
-        if f1 > f0 { run.fail(&format!("leak:{}:sockets-open-after-teardown", sig_class(sc)), &format!("life {}", sc.text()), &format!("socket fds {f0} -> {f1} after 12 s")); }
+        if l.err.is_some() { continue; }
+        if app_ended {
+            if l.tasks_x_after_event > 0 { run.fail(&format!("leak:{}:tasks-alive-while-handle-held", sig_class(sc)), &format!("leak {}", sc.text()), &format!("{} tasks of the subject still alive 12 s after the event", l.tasks_x_after_event)); }
+            if l.fds_handle_held > l.fds_after_drop { run.fail(&format!("leak:{}:sockets-released-only-by-drop", sig_class(sc)), &format!("leak {}", sc.text()), &format!("socket fds {} with the handle held, {} after dropping it", l.fds_handle_held, l.fds_after_drop)); }
+            if l.fds_after_drop > l.fds_base { run.fail(&format!("leak:{}:sockets-open-after-drop", sig_class(sc)), &format!("leak {}", sc.text()), &format!("socket fds {} -> {}", l.fds_base, l.fds_after_drop)); }
+        }
     }
     run.notes.insert("resources_measured".into(), serde_json::json!(leaks));
-    run.notes.insert("runtime_facts".into(), serde_json::json!("task / descriptor release and call latencies are measured on this host (tokio RuntimeMetrics::num_alive_tasks, /proc/self/fd sockets, 700 ms call bound, 1.5 s settle; 4 s for peer-vanish with threshold 1.2 s + grace 0.3 s) — not theorems"));
+    run.notes.insert("runtime_facts".into(), serde_json::json!("task / descriptor release is measured per endpoint (the subject runs on its own tokio runtime; RuntimeMetrics::num_alive_tasks polled <= 12 s after the event WHILE the application still holds its handles; /proc/self/fd sockets with the handle held vs after dropping it); lower-layer failure scenarios are measured and listed but not alarmed (resources stay until the application closes); 700 ms call bound, 1.5 s settle; 4 s for peer-vanish with threshold 1.2 s + grace 0.3 s) — not theorems"));
     run.exhaustive = args.tier_thorough;
     run.finish();
 }
